@@ -3,6 +3,7 @@ C02 — property theorems: nobody becomes owner (or gains a capability they are 
 through the bot's commands.
 -/
 import LimnoriaModel.C02.Lemmas
+import LimnoriaModel.C02.Chan
 import LimnoriaModel.C16.Order
 import LimnoriaModel.Gen.CapSites
 import LimnoriaModel.Gen.WrapSpecs
@@ -1037,102 +1038,160 @@ theorem history_safe_all_ev (cfg : Cfg) (hcfg : HashSafe cfg) (hist : List Ev) (
       obtain ⟨h1, h2⟩ := ih (st.fileOrder uo co) h' (fun e he => hp e (by simp [he])) hg
       exact ⟨fun id hid => h1 id hid, h2⟩
 
-/-! ## `channel capability set/unset` save whatever they change (repair C02-channel-capability-half-applied) -/
+/-! ## the channels file and the channels in memory (`ChanAgree`, C02/Chan.lean) -/
 
-/-- `invertCapability` never raises on a capability (a single word) -/
-theorem invert_ok_of_isCapability {c : Str} (h : C03.isCapability c = true) : ∃ i, C03.invertCapability c = .ok i := by
-  unfold C03.invertCapability
-  simp only [h, Bool.not_true, Bool.false_eq_true, if_false]
+theorem step_chanAgree (cfg : Cfg) (st : St) (pfx : Str) (c : Cmd) (ch : Option Str)
+    (hc : c ≠ .flushReload) (hr : c ≠ .reload) (h : ChanAgree st) : ChanAgree (step cfg st pfx c ch).1 := by
+  have hb : ChanAgree (body cfg st pfx c).1 := chanAgree_of_shape (body_chanShape cfg st pfx c hc hr) h
+  unfold step
+  cases c with
+  | flushReload => exact absurd rfl hc
+  | reload => exact absurd rfl hr
+  | flushAll => exact hb
+  | upkeep on => exact hb
+  | _ =>
+    simp only []
+    split
+    · exact h
+    · split
+      · exact hb
+      · exact h
+
+theorem reloadUsersFrom_chans (cfg : Cfg) (st : St) (db : C16.UsersDb) :
+    (reloadUsersFrom cfg st db).channels = st.channels ∧ (reloadUsersFrom cfg st db).csaved = st.csaved ∧
+    (reloadUsersFrom cfg st db).cname = st.cname := by
+  unfold reloadUsersFrom; simp only []; split <;> exact ⟨rfl, rfl, rfl⟩
+
+theorem reloadU_chans (cfg : Cfg) (st : St) :
+    (reloadU cfg st).channels = st.channels ∧ (reloadU cfg st).csaved = st.csaved ∧ (reloadU cfg st).cname = st.cname := by
+  unfold reloadU
   split
-  · rename_i ha
-    unfold C03.unAntiCapability
-    simp only [h, ha, Bool.not_true, Bool.false_eq_true, if_false]
-    split <;> exact ⟨_, rfl⟩
-  · rename_i ha
-    unfold C03.makeAntiCapability
-    simp only [h, ha, Bool.not_true, Bool.false_eq_true, if_false]
-    split
-    · rename_i ch c' hs
-      have hcs : C03.isChannel ch = true ∧ C03.isCapability c' = true := by
-        unfold C03.chanSplit at hs
-        split at hs
-        · split at hs
-          · rename_i hh
-            injection hs with hs
-            injection hs with h1 h2
-            subst h1; subst h2
-            simpa using hh
-          · cases hs
-        · cases hs
-      have hc2 : C03.isCapability ('-' :: c') = true := by
-        have := hcs.2
-        unfold C03.isCapability at this ⊢
-        simp only [List.isEmpty_cons, Bool.not_false, Bool.true_and, List.all_cons, Bool.and_eq_true] at this ⊢
-        exact ⟨by decide, this.2⟩
-      unfold C03.makeChannelCapability
-      simp only [hc2, hcs.1, Bool.not_true, Bool.false_eq_true, if_false]
-      exact ⟨_, rfl⟩
-    · exact ⟨_, rfl⟩
+  · exact reloadUsersFrom_chans cfg st _
+  · exact ⟨rfl, rfl, rfl⟩
 
-theorem capAdd_ok_of_isCapability (caps : List Str) {c : Str} (h : C03.isCapability c = true) :
-    ∃ s', C03.CapSet.add caps c = .ok s' := by
-  obtain ⟨i, hi⟩ := invert_ok_of_isCapability (c := C03.toLower c) (by rw [C03.isCapability_toLower]; exact h)
-  unfold C03.CapSet.add
-  simp only [hi]
-  exact ⟨_, rfl⟩
+theorem reloadI_chans (st : St) :
+    (reloadI st).channels = st.channels ∧ (reloadI st).csaved = st.csaved ∧ (reloadI st).cname = st.cname := by
+  unfold reloadI; split <;> exact ⟨rfl, rfl, rfl⟩
 
-theorem addCaps_complete (caps l : List Str) (h : l.all C03.isCapability = true) : (addCaps caps l).2 = true := by
-  induction l generalizing caps with
-  | nil => rfl
-  | cons c rest ih =>
-    simp only [List.all_cons, Bool.and_eq_true] at h
-    obtain ⟨s', hs'⟩ := capAdd_ok_of_isCapability caps h.1
-    unfold addCaps
-    simp only [h.1, Bool.not_true, Bool.false_eq_true, if_false, hs']
-    exact ih s' h.2
+/-- a channels load that completes ends with a flush: file and memory agree -/
+theorem reloadChannelsFrom_agree (cfg : Cfg) (st : St) (chans : C16.ChannelsDb)
+    (hok : (C16.loadChannels (envOf cfg) st.cname (C16.dumpChannels chans)).2 = none) :
+    ChanAgree (reloadChannelsFrom cfg st chans) := by
+  apply chanAgree_of_saved
+  unfold reloadChannelsFrom
+  simp only [hok, Option.isNone_none, if_true]
+  rfl
 
-theorem removeCaps_complete (caps l : List Str) (h : l.all C03.isCapability = true) : (removeCaps caps l).2.1 = true := by
-  induction l generalizing caps with
-  | nil => rfl
-  | cons c rest ih =>
-    simp only [List.all_cons, Bool.and_eq_true] at h
-    unfold removeCaps
-    simp only [h.1, Bool.not_true, Bool.false_eq_true, if_false]
-    split
-    · exact ih _ h.2
-    · exact ih _ h.2
+/-- the channel loads of a step complete -/
+def ChanLoadsOk (cfg : Cfg) (st : St) : Cmd → Prop
+  | .flushReload => (C16.loadChannels (envOf cfg) st.cname (C16.dumpChannels st.channels)).2 = none
+  | .reload => ∀ t, st.csaved = some t → (C16.loadChannels (envOf cfg) st.cname (C16.dumpChannels t)).2 = none
+  | _ => True
 
-/-- **`channel capability set` / `unset` are saved or did nothing**: the capabilities are checked
-before the live channel record is touched, so whenever the command changed the state at all it
-went through `setChannel` and the saved channels file is the channels in memory.  (Before the
-repair an argument such as `"\tx"` stopped the loop after earlier capabilities had been removed
-in memory only: `unset #chan op "\tx"`, then SIGHUP, and `op` was back.) -/
-theorem chanCapSet_saved (cfg : Cfg) (st : St) (pfx chan : Str) (caps : List Str) (c : Cmd)
-    (hc : c = .chanCapSet chan caps ∨ c = .chanCapUnset chan caps) :
-    (body cfg st pfx c).1 = st ∨ (body cfg st pfx c).1.csaved = some (body cfg st pfx c).1.channels := by
-  rcases hc with rfl | rfl
-  · simp only [body]
+/-- **every step keeps the channels file and memory in agreement** — commands because they save
+what they change (`body_chanShape`), reloads because a load that completes ends with a flush -/
+theorem step_chanAgree_all (cfg : Cfg) (st : St) (pfx : Str) (c : Cmd) (ch : Option Str)
+    (h : ChanAgree st) (hl : ChanLoadsOk cfg st c) : ChanAgree (step cfg st pfx c ch).1 := by
+  by_cases hc : c = .flushReload
+  · subst hc
+    obtain ⟨e1, _, e3⟩ := reloadUsersFrom_chans cfg st { users := st.users, nextId := st.nextId }
+    have hok : (C16.loadChannels (envOf cfg) (reloadUsersFrom cfg st { users := st.users, nextId := st.nextId }).cname
+        (C16.dumpChannels (reloadUsersFrom cfg st { users := st.users, nextId := st.nextId }).channels)).2 = none := by
+      rw [e1, e3]; exact hl
+    have hst := reloadChannelsFrom_agree cfg _ _ hok
+    have e : (step cfg st pfx .flushReload ch).1 = flushReloadSt cfg st := rfl
+    rw [e]
+    unfold flushReloadSt
+    simp only []
+    intro saved hsv n
+    exact hst saved hsv n
+  by_cases hr : c = .reload
+  · subst hr
+    obtain ⟨_, u2, u3⟩ := reloadU_chans cfg st
+    obtain ⟨_, i2, i3⟩ := reloadI_chans (reloadU cfg st)
+    show ChanAgree (reloadSt cfg st)
+    unfold reloadSt reloadC
     split
-    · exact Or.inl rfl
-    · split
-      · exact Or.inl rfl
-      · split
-        · exact Or.inl rfl
-        · rename_i hall
-          have hall' : caps.all C03.isCapability = true := by simpa using hall
-          rw [addCaps_complete _ _ hall']
-          exact Or.inr rfl
-  · simp only [body]
-    split
-    · exact Or.inl rfl
-    · split
-      · exact Or.inl rfl
-      · split
-        · exact Or.inl rfl
-        · rename_i hall
-          have hall' : caps.all C03.isCapability = true := by simpa using hall
-          rw [removeCaps_complete _ _ hall']
-          exact Or.inr rfl
+    · rename_i t ht
+      rw [i2, u2] at ht
+      refine reloadChannelsFrom_agree cfg _ t ?_
+      rw [i3, u3]
+      exact hl t ht
+    · rename_i hnone
+      intro saved hsv
+      simp only [] at hsv
+      rw [hnone] at hsv
+      cases hsv
+  · exact step_chanAgree cfg st pfx c ch hc hr h
+
+theorem chanOf_map_caps (l : C16.ChannelsDb) (g : Str × C16.Chan → List Str) (n : Str)
+    (hg : ∀ p, ∀ x, x ∈ g p ↔ x ∈ p.2.caps) :
+    ChanEquiv (chanOf (l.map (fun p => (p.1, { p.2 with caps := g p }))) n) (chanOf l n) := by
+  unfold chanOf
+  induction l with
+  | nil => exact chanEquiv_refl _
+  | cons p rest ih =>
+    simp only [List.map_cons, List.find?_cons]
+    by_cases hp : C03.toLower p.1 = C03.toLower (asciiLower n)
+    · simp only [hp, decide_true]
+      exact ⟨rfl, rfl, rfl, rfl, hg p⟩
+    · simp only [hp, decide_false]
+      exact ih
+
+theorem fileOrder_chanAgree {st : St} (uo : List (Nat × List Str)) (co : List (Str × List Str)) (h : ChanAgree st) :
+    ChanAgree (st.fileOrder uo co) := by
+  intro saved hsv n
+  unfold St.fileOrder at hsv
+  simp only [] at hsv
+  cases hs : st.csaved with
+  | none => rw [hs] at hsv; cases hsv
+  | some l =>
+    rw [hs] at hsv
+    simp only [Option.map_some] at hsv
+    injection hsv with hsv
+    rw [← hsv]
+    exact chanEquiv_trans (chanOf_map_caps l _ n (fun p x => mem_permCaps)) (h l hs n)
+
+/-- along the history every channels load completes -/
+def ChanLoadsOkEv (cfg : Cfg) : St → List Ev → Prop
+  | _, [] => True
+  | st, .cmd pfx c :: rest => ChanLoadsOk cfg st c ∧ ChanLoadsOkEv cfg (step cfg st pfx c none).1 rest
+  | st, .cmdIn ch pfx c :: rest =>
+    (match c.inChannel ch with
+     | some c' => ChanLoadsOk cfg st c' ∧ ChanLoadsOkEv cfg (step cfg st pfx c' (some ch)).1 rest
+     | none => ChanLoadsOkEv cfg st rest)
+  | st, .order uo co :: rest => ChanLoadsOkEv cfg (st.fileOrder uo co) rest
+
+/-- **The channels file never differs from the channels in memory** (as answers to
+`getChannel`, capability sets compared as sets): along any history of messages, flushes, reloads
+of both kinds and set-order events in which the channel loads complete.  In particular a reload
+that reads the files as they are changes no channel setting — no command leaves a channel
+changed in memory only (it did before repair 92c8e54). -/
+theorem history_chanAgree_ev (cfg : Cfg) (hist : List Ev) (st : St) (h : ChanAgree st)
+    (hl : ChanLoadsOkEv cfg st hist) : ChanAgree (runEv cfg st hist) := by
+  induction hist generalizing st with
+  | nil => exact h
+  | cons e rest ih =>
+    cases e with
+    | cmd pfx c =>
+      exact ih _ (step_chanAgree_all cfg st pfx c none h hl.1) hl.2
+    | cmdIn ch pfx c =>
+      cases hc : c.inChannel ch with
+      | none =>
+        have e1 : stepEv cfg st (.cmdIn ch pfx c) = st := by unfold stepEv; simp only [hc]
+        have hl' : ChanLoadsOkEv cfg st rest := by unfold ChanLoadsOkEv at hl; simp only [hc] at hl; exact hl
+        unfold runEv
+        rw [e1]
+        exact ih st h hl'
+      | some c' =>
+        have e1 : stepEv cfg st (.cmdIn ch pfx c) = (step cfg st pfx c' (some ch)).1 := by unfold stepEv; simp only [hc]
+        have hl' : ChanLoadsOk cfg st c' ∧ ChanLoadsOkEv cfg (step cfg st pfx c' (some ch)).1 rest := by
+          unfold ChanLoadsOkEv at hl; simp only [hc] at hl; exact hl
+        unfold runEv
+        rw [e1]
+        exact ih _ (step_chanAgree_all cfg st pfx c' (some ch) h hl'.1) hl'.2
+    | order uo co =>
+      exact ih _ (fileOrder_chanAgree uo co h) hl
 
 /-! ## the statement of the property over whole histories -/
 
@@ -1324,5 +1383,22 @@ pass the gate, in private or in a channel -/
 example : allowed st0 (s "eve!e@evil.host") (.capAdd (s "eve") (s "Admin")) none = false ∧
           allowed st0 (s "eve!e@evil.host") (.capAdd (s "eve") (s "Admin")) (some (s "#chan")) = false ∧
           allowed st0 (s "adm!a@admin.host") (.capAdd (s "eve") (s "Admin")) (some (s "#chan")) = true := by decide
+
+/-- `history_chanAgree_ev` at the example state, and its hypothesis is satisfiable -/
+example (hist : List Ev) (hl : ChanLoadsOkEv cfg0 (flushC st0) hist) : ChanAgree (runEv cfg0 (flushC st0) hist) :=
+  history_chanAgree_ev cfg0 hist _ (chanAgree_of_saved rfl) hl
+
+example : ChanLoadsOkEv cfg0 (flushC st0) [.cmd (s "x") .reload, .cmd (s "x") .flushReload] := by
+  refine ⟨?_, ?_, trivial⟩
+  · intro t ht
+    have : t = [] := by
+      have h : (flushC st0).csaved = some [] := rfl
+      rw [h] at ht
+      injection ht with ht
+      exact ht.symm
+    subst this
+    decide
+  · show (C16.loadChannels _ _ _).2 = none
+    decide
 
 end C02
